@@ -316,8 +316,14 @@ def check(tier):
     tasks = [(n, tier, depth - 1, None, True) for n in names] + [(n, tier, depth - 1, op, True) for n in names for op in full_ops]
     deep_names = names if tier == "quick" else ["list-p2", "call-p0", "dict-p4", "sg-p4"]
     tasks += [(n, tier, depth, op, False) for n in deep_names for op in core_ops]
-    with mp.get_context("fork").Pool(ncpu()) as pool:
-        for name, cov, viol, vcount, samples in pool.imap_unordered(_run_root, tasks, chunksize=1):
+    from .. import par
+
+    if True:
+        for res in par.pmap_unordered(_run_root, tasks, chunksize=1):
+            if isinstance(res, par.WorkerDied):
+                rep.violate("C14|worker-process-died", f"{res.why} while exploring {repr(res.item)[:300]}", {"item": repr(res.item)[:1000]})
+                continue
+            name, cov, viol, vcount, samples = res
             for k in ("states", "transitions", "traces_validated_against_impl", "evaluations", "distinct_nontrivial"):
                 rep.add(k, cov.get(k, 0))
             rep.add(f"base_{name}_states", cov.get("states", 0))
